@@ -30,7 +30,7 @@ def run(chk):
     import kernpy as kp
     octaves = list(range(0, 9))
     extra_octaves = []
-    if chk.tier == 'thorough' or b.drift or not b.proof_ok:
+    if chk.tier == 'thorough' or b.drift or not b.proof_ok or not b.modelrun_ok:
         extra_octaves = [-40, -7, -1, 9, 10, 33, 1000]
     rnd_octs = [chk.rng.randint(-60, 60) for _ in range(3)]
     names = list(kp.AVAILABLE_INTERVALS)
@@ -109,7 +109,7 @@ def run(chk):
     # results are the caller's own: editing a returned pitch (folding a melody back into range) must not change what
     # the next transposition of an equal pitch returns, nor the argument
     nh = 0
-    for _ in range(300 if not (chk.tier == 'thorough' or b.drift or not b.proof_ok) else 3000):
+    for _ in range(300 if not (chk.tier == 'thorough' or b.drift or not b.proof_ok or not b.modelrun_ok) else 3000):
         r_ = chk.rng
         l, a, o = r_.randrange(7), r_.randint(-2, 2), r_.randint(1, 7)
         name = 'CDEFGAB'[l] + ('+' * a if a >= 0 else '-' * (-a))
